@@ -28,7 +28,7 @@ var serverFaults = []string{
 	// session-rule-breaking servers
 	"accept-multi-field-messages", "accept-zero-election-id", "accept-unsupported-params", "accept-mismatched-params",
 	"leak-results-to-other-clients", "flush-on-new-primary", "fail-entries-with-metadata",
-	"report-own-election-id",
+	"report-own-election-id", "report-previous-election-id",
 	// Get returns entries of one kind under a key that was never programmed (stale / wrong data) - the instance is there
 	"get-rekeys-ipv4", "get-rekeys-ipv6", "get-rekeys-nhg", "get-rekeys-nh",
 	// the basics and the remaining Flush rules (every test of the suite has at least one faulty server it must flag)
@@ -130,6 +130,9 @@ func designated(fault string) func(name string) bool {
 		return has("Active entries after new master connects")
 	case "fail-entries-with-metadata":
 		return has("Add Metadata for IPv4 entry", "Add IPv6 entry with metadata")
+	case "report-previous-election-id":
+		// (only the answer to a further announcement on an established stream lags behind)
+		return has("Election - Incrementing election ID")
 	case "report-own-election-id":
 		// (only an announcement BELOW the highest id is answered wrongly)
 		return has("Election - Lower election ID", "Election - Decrementing election ID")
@@ -450,6 +453,18 @@ func (f *faultyModify) Send(r *spb.ModifyResponse) error {
 				c.Result = append(c.Result, res)
 			}
 			r = c
+		}
+	case "report-previous-election-id":
+		// the answer to a further announcement on an established stream carries what the previous answer carried
+		if r.ElectionId != nil {
+			prev := f.lastElec
+			f.lastElec = proto.Clone(r.ElectionId).(*spb.Uint128)
+			if prev != nil && !proto.Equal(prev, r.ElectionId) {
+				simrt.Active().Fault("srv-fault:" + f.fault)
+				c := proto.Clone(r).(*spb.ModifyResponse)
+				c.ElectionId = prev
+				r = c
+			}
 		}
 	case "report-own-election-id":
 		// an election update is answered with the id the client itself announced, not with the highest one
